@@ -38,7 +38,8 @@ ASSUMPTIONS = ["vf.ref.llcp_ref and the 10-line aggregate splitter in this modul
                "they are not subject to the oracles, the controller's answers are",
                "link turns alternate strictly (A,B,A,B) as NFC-DEP forces them to; an idle side sends SYMM"]
 REQUIRED = ["frames_checked", "agf_frames", "transparency_compared", "pdu_len_contract", "snl_gt30_answers",
-            "frames_at_exact_miu", "rr_in_agf", "dm_in_agf"]
+            "frames_at_exact_miu_lone", "frames_at_exact_miu_agf", "rr_in_agf", "dm_in_agf", "i_payload_checked",
+            "ui_payload_checked", "miu_not_multiple_of_4_checked"]
 
 SPECIAL = (list(range(128, 141)) + list(range(247, 261)) + list(range(1000, 1004)) + list(range(2170, 2176)))
 PROFILES = ["sd", "edge", "mix", "mix"]
@@ -50,11 +51,11 @@ def plan(tier, seed):
     n = 16
     if tier == "quick":
         targets = list(SPECIAL) + [rng.randrange(141, 2170) for _ in range(11)]
-        reps = 16
+        reps = 32
         tmo = 240
     else:
         targets = list(range(128, 2176))
-        reps = 6
+        reps = 16
         tmo = 3000
     jobs = []
     for r in range(reps):
@@ -157,7 +158,7 @@ class Monitor:
             if pax["miu"] != cfg:
                 R.inconc("controller %s configured with miu=%d announces %d" % (end, cfg, pax["miu"]))
         self.agf = {"A": bool(case["agf_a"]), "B": bool(case["agf_b"])}
-        self.conn_pending = {}     # (end, local sap) -> miu announced in CONNECT
+        self.conn_pending = {}     # (end, local sap) -> [(dsap, miu)] of CONNECTs not yet answered by CC/DM
         self.conn_miu = {}         # (receiving end, its sap, sender's sap) -> miu the receiving endpoint announced
         self.raw_pending = {"A": [], "B": []}
         self.frames = 0
@@ -170,6 +171,7 @@ class Monitor:
             self._wrap_dispatch(end)
         lp.observers.append(self.on_frame)
         self.last = None
+        self.tops = []
 
     # -- receiver side observation -------------------------------------------------------------
     def _wrap_dispatch(self, end):
@@ -211,14 +213,23 @@ class Monitor:
 
     # -- bookkeeping of connection MIUs (wire or peer-injected PDUs) --------------------------
     def note_params(self, sender, d):
+        """MIU announced by connection endpoints.  An endpoint is known on the wire as (end, its SAP, peer SAP); when
+        the harness' virtual peer re-uses a source SAP for several CONNECTs the largest announced value counts
+        (weaker, never a false alarm)."""
         other = "B" if sender == "A" else "A"
         if d["t"] == "CONNECT":
-            self.conn_pending[(sender, d["ssap"])] = d["miu"]
+            self.conn_pending.setdefault((sender, d["ssap"]), []).append((d["dsap"], d["miu"]))
         elif d["t"] == "CC":
             self.conn_miu[(sender, d["ssap"], d["dsap"])] = d["miu"]
-            m = self.conn_pending.get((other, d["dsap"]))
-            if m is not None:
-                self.conn_miu[(other, d["dsap"], d["ssap"])] = m
+            pend = self.conn_pending.get((other, d["dsap"]), [])
+            cands = [m for ds, m in pend if ds in (d["ssap"], 1)]
+            if cands:
+                key = (other, d["dsap"], d["ssap"])
+                self.conn_miu[key] = max(cands + [self.conn_miu.get(key, 0)])
+                pend[:] = [(ds, m) for ds, m in pend if ds not in (d["ssap"], 1)]
+        elif d["t"] == "DM":
+            pend = self.conn_pending.get((other, d["dsap"]), [])
+            pend[:] = [(ds, m) for ds, m in pend if ds != d["ssap"]]
 
     # -- sender side: the frame on the wire ----------------------------------------------------
     def on_frame(self, direction, enc, p):
@@ -259,12 +270,15 @@ class Monitor:
             R.count("frames_exempt_raw")
         else:
             R.seen("miu_values_checked", link)
+            if link % 4:
+                R.count("miu_not_multiple_of_4_checked")
             R.seen("miu_values_checked_agf_%s" % ("on" if self.agf[snd] else "off"), link)
             R.max("fill_permille_%s_%s" % ("agf" if top == "AGF" else "lone", cls), info * 1000 // link)
             if info == link:
                 R.count("frames_at_exact_miu")
                 R.count("frames_at_exact_miu_%s" % ("agf" if top == "AGF" else "lone"))
             if info > link:
+                R.max("link_excess_bytes_%s" % ("agf" if top == "AGF" else "lone"), info - link)
                 self.report_link(direction, enc, d, top, info, link)
         if top == "AGF":
             R.count("agf_frames")
@@ -297,7 +311,12 @@ class Monitor:
                     R.violation("payload/UI>link-miu/" + where, "UI payload of %d bytes, receiver announced Link MIU %d"
                                 % (len(x["data"]), link), self.case)
             elif x["t"] == "I":
+                # data can overtake the CC (accepted socket is served before the listening one): the receiving
+                # endpoint spoke in its CONNECT, unanswered CONNECTs of that SAP count as well
+                cands = [mm for ds, mm in self.conn_pending.get((rcv, x["dsap"]), []) if ds in (x["ssap"], 1)]
                 m = self.conn_miu.get((rcv, x["dsap"], x["ssap"]))
+                if cands:
+                    m = max(cands + [m or 0])
                 if m is None:
                     R.count("i_payload_unknown_connection")
                 else:
@@ -323,21 +342,26 @@ class Monitor:
                             "from the PDUs in the encoded frame: %d collected, %d on the wire" % (len(coll), len(wire)),
                             self.case)
         self.last = (rcv, wire, top)
+        self.tops.append(top)
 
     def report_link(self, direction, enc, d, top, info, link):
         sig = "link-miu/" + (describe(d) if top != "AGF" else "AGF")
         extra = ""
         if top == "AGF":
+            # the member whose addition made (or left) the aggregate larger than the limit: the first member is
+            # put in unconditionally (alone it would be a legal frame), so blame starts with member 2
             cum = 0
             mem = members(enc)
+            if len(mem) < 2:
+                sig += "/single-member"
             for k, m in enumerate(mem):
                 cum += 2 + len(m)
-                if cum > link:
+                if cum > link and k >= 1:
                     md = ref.decode(m)
-                    sig += "/crossed-by-" + describe(md)
+                    sig += "/overfull-on-adding-" + describe(md)
                     if describe(md) == "SNL.sdres" and cum - link < 4:
                         sig += "/partial-last-sdres"
-                    extra = "; member %d of %d (%s, %d bytes) crosses the limit, %d bytes of members before it" % (
+                    extra = "; member %d of %d (%s, %d bytes) was added with %d bytes of members already there" % (
                         k + 1, len(mem), describe(md), len(m), cum - 2 - len(m))
                     break
         elif describe(d) == "SNL.sdres" and info - link < 4:
@@ -361,6 +385,11 @@ class Monitor:
         self.active, self.rx, self.last = rcv, [], None
         try:
             p = self.lp.turn(src)
+        except Exception as e:
+            if self.last is not None:       # the frame was on the wire: the receiver's decode/dispatch raised
+                self.R.violation("transparency/receive-raises/%s" % exc_sig(e), "the receiver raised %r on a frame the "
+                                 "sender collected (%s)" % (e, self.last[2]), self.case)
+            raise
         finally:
             self.active = None
         if p is None or self.last is None:
@@ -596,7 +625,9 @@ class History:
                         R.count("accepted_injected_connect")
         elif k == "pinj":
             _, end, i, t, dns, nr, n = o
-            s = self.pick(end, ("dlc", "idle", "ldl"), i)
+            # (a UI addressed to an established connection is left out: the receiving controller then blocks
+            #  inside its own dispatch, waiting for the DM of the close() it starts - not this property's business)
+            s = self.pick(end, ("idle", "ldl") if t == "UI" else ("dlc", "idle", "ldl"), i)
             if s is None:
                 return
             a, b = s.getsockname(), s.getpeername()
@@ -630,6 +661,12 @@ class History:
             if s is None:
                 return
             tco = s._tco
+            # unsent I PDUs of a closing socket cannot be encoded by nfcpy (N(R) stays None) and would end the
+            # history; let them go out first (queue inspection only steers the workload)
+            for _ in range(8):
+                if not any(getattr(q, "name", "") == "I" for q in list(tco.send_queue)):
+                    break
+                self.pump(1)
 
             def work():
                 try:
@@ -654,17 +691,25 @@ class History:
             R.seen("setup_failures", exc_sig(e) + " " + repr(e)[:80])
             self.finish()
             return False
+        R.max("sockets_per_history", sum(len(v) for v in self.socks.values()))
         try:
             for o in self.case["ops"]:
                 self.op(o)
             # run the queues dry: alternate turns, keep the receive windows open
-            idle = 0
+            idle = dm_only = 0
             for _ in range(self.case.get("tail", 300)):
+                self.mon.tops = []
                 sent = self.pump(1)
                 self.op(["drain", "A"])
                 self.op(["drain", "B"])
                 idle = idle + 1 if sent == 0 else 0
                 if idle >= 3:
+                    break
+                # two nfcpy stacks answer each other's DM with a DM for ever (inactive socket on both sides):
+                # nothing new to see, stop there
+                dm_only = dm_only + 1 if self.mon.tops == ["DM", "DM"] else 0
+                if dm_only >= 4:
+                    R.count("tail_cut_dm_ping_pong")
                     break
             else:
                 R.count("tail_not_quiescent")
@@ -734,7 +779,7 @@ def gen_case(rng, miu_b, agf_a, profile):
     def op_snl():
         n = rng.choice([1, 2, 20, 31, 32, 33, 34, 40, 65, 100, 250, 500, rng.randrange(1, 501)])
         lmin = rng.choice([1, 1, 5, 20])
-        return ["snl", end_(), n, lmin, rng.choice([lmin, 12, 60]), rng.randrange(1 << 20)]
+        return ["snl", end_(), n, lmin, max(lmin, rng.choice([lmin, 12, 60])), rng.randrange(1 << 20)]
 
     def op_resolve():
         return ["resolve", end_(), rng.choice([1, 2, 30, 58, 59, 60, rng.randrange(1, 61)]), len(ops)]
@@ -745,7 +790,9 @@ def gen_case(rng, miu_b, agf_a, profile):
         sn = None
         if sel == ["sap", 1]:
             sn = name_of(rng.randrange(100), rng.randrange(14, 40)) if rng.random() < 0.8 else None
-        return ["cinj", end_(), sel, rng.randrange(32, 64), some_miu(rng), rng.randrange(16), sn]
+        # source SAP of the virtual peer: distinct per operation where possible (keeps the connection MIU oracle tight)
+        return ["cinj", end_(), sel, (44, 45, 46, 47, 48, 49, 51, 52, 53, 54, 55, 56)[len(ops) % 12], some_miu(rng),
+                rng.randrange(16), sn]
 
     def op_pinj():
         t = rng.choice(["I", "I", "I", "RR", "RNR", "DISC", "DM", "UI", "FRMR"])
